@@ -34,6 +34,11 @@ def run(pid, tier, seed, extra_model=None):
         gen_states += r["generated"]
         scheds += ss
         cov["generator"][f] = {"schedules": len(ss), "tlc_states_generated": r["generated"]}
+    import directed
+    if pid == "C01":
+        scheds += directed.c01_family(tier)
+    if pid == "C03":
+        scheds += directed.c03_family(tier) + directed.c01_family(tier)[::3]
     # the committed directed corpus rides along
     for path in sorted(glob.glob(os.path.join(common.ROOT, "corpus", "*.ndjson"))):
         for line in open(path):
